@@ -1535,6 +1535,30 @@ def c08_caller(ctx):
         out.inst('C08-CALLER/' + strip_generics(entry), not bad, 'no direct user-closure call on the spawning thread', sample={'entry': strip_generics(entry)})
         for (bd, t, p) in bad:
             out.fail('C08-CALLER/%s/%s' % (strip_generics(entry), p), '%s calls the user closure %s directly on the spawning thread' % (key_of(bd), p), bd.where(t.get('line')))
+        # a user closure handed to an iterator terminal that the spawning thread itself drives (`handles.map(join).reduce(reduce)`):
+        # the closure then also runs on the calling thread - with Max(n), n >= 2, on n + 1 distinct threads
+        fb = eb.fn_bounds()
+        users = {}
+        for l in eb.arg_locals():
+            tp = local_type_param(eb, l)
+            if tp in fb and fb[tp]['inputs'] != '(usize,)':
+                users[eb.local_name(l)] = tp
+        for bd in (eb, cb):
+            rr = ctx.run(bd.name)
+            for bb, c in rr.call_sites():
+                d_ = decl(c['t'])
+                if not d_.startswith(ITER) or d_[len(ITER):] not in (ITER_EXHAUSTIVE | ITER_SHORT_CIRCUIT | {'map', 'filter', 'inspect'}):
+                    continue
+                for a in c['args'][1:]:
+                    nm = None
+                    if a[0] == 'param':
+                        nm = a[1][4:].lstrip('*') if a[1].startswith('cap:') else a[1]
+                    if nm in users:
+                        k2 = 'C08-CALLER/%s/%s-on-caller' % (strip_generics(entry), nm)
+                        out.inst(k2, False, '%s(.., %s)' % (d_[len(ITER):], nm))
+                        out.fail(k2, '%s hands the user closure `%s` to Iterator::%s, which the spawning thread drives after joining the workers: with '
+                                     'NumThreads::Max(n), n >= 2, that closure is run by the n workers and by the calling thread - n + 1 distinct threads'
+                                 % (key_of(bd), nm, d_[len(ITER):]), bd.where(c['line']))
     out.floor('entries', n, 3 if not ctx.fixture else 0)
     return out
 
@@ -1881,4 +1905,34 @@ def c09_ties(ctx):
                           'std iterator chain whenever the %s is attained more than once by distinguishable elements'
                      % (PAR_TRAIT, m, 'earlier' if tab['Equal'] == 'x' else 'later', m, 'first' if want == 'x' else 'last', 'minimum' if want == 'x' else 'maximum'), b.where())
     out.floor('wrappers', n, 6 if not ctx.fixture else 0)
+    return out
+
+
+# ======================================================================================= C09-SUMID
+@rule('C09-SUMID', 'sum() of nothing is the identity Iterator::sum uses, not merely Default::default()')
+def c09_sumid(ctx):
+    from .optcase import case_returns_rerun
+    out = RuleOut('C09-SUMID')
+    F = ctx.facts
+    b = F.bodies.get(PAR_TRAIT + '::sum')
+    if b is None:
+        out.fail('C09-SUMID/sum', 'anchor missing: %s::sum' % PAR_TRAIT, kind='anchor-missing')
+        return out
+    r = ctx.run(b.name)
+    rc = reduce_call_of(ctx, b, r)
+    key = 'C09-SUMID/%s::sum' % PAR_TRAIT
+    if rc is None:
+        # delegates to something else (e.g. Iterator::sum over a sequential iterator): nothing to compare here
+        viaSum = any(decl(c['t']) in ('std::iter::Iterator::sum', 'std::iter::Sum::sum') for _, c in r.call_sites())
+        out.inst(key, viaSum, 'no reduce call; std Sum used: %s' % viaSum)
+        if not viaSum:
+            out.fail(key, '%s::sum: neither reduce(..) with an empty-case value nor std Sum: the value for an empty input is not decidable' % PAR_TRAIT, b.where(), kind='undecided')
+        return out
+    cases, V = case_returns_rerun(ctx, b.name, rc['res'])
+    dflt = [x for x in cases['none'] if x[0] == 'call' and term_method(x) == 'default']
+    ok = not dflt
+    out.inst(key, ok, 'empty case: %s' % sorted(t_str(x)[:40] for x in cases['none']), sample={'method': 'sum', 'empty_case': sorted(t_str(x)[:60] for x in cases['none'])})
+    if dflt:
+        out.fail(key, '%s::sum returns Default::default() for an empty input. Iterator::sum returns the identity of the type\'s Sum impl, which for f32/f64 is -0.0, '
+                      'not +0.0: with num_threads(1) (and in parallel) an empty float sum differs from the std chain in its sign bit' % PAR_TRAIT, b.where())
     return out
